@@ -25,7 +25,15 @@ def specs(tier):
          ("xy", gridlab.tokamak_spec("lsn", fpol="linear", options={"curvature_type": "curl(b/B) with x-y derivatives", "nx_core": 4, "nx_sol": 4,
                                                                    "ny_sol": 16, "ny_inner_divertor": 6, "ny_outer_divertor": 6}, extract=ex)),
          ("xy", gridlab.tokamak_spec("ldn", fpol="linear", options={"curvature_type": "curl(b/B) with x-y derivatives", "nx_core": 4, "nx_sol": 4,
-                                                                   "ny_inner_sol": 8, "ny_outer_sol": 8, "ny_inner_divertor": 6, "ny_outer_divertor": 6}, extract=ex))]
+                                                                   "ny_inner_sol": 8, "ny_outer_sol": 8, "ny_inner_divertor": 6, "ny_outer_divertor": 6}, extract=ex)),
+         # the first x-y grid with every cell halved: the disagreement with the exact projection is a discretisation error and must shrink
+         ("xyfine", gridlab.tokamak_spec("lsn", fpol="linear", options={"curvature_type": "curl(b/B) with x-y derivatives", "nx_core": 8, "nx_sol": 8,
+                                                                       "ny_sol": 32, "ny_inner_divertor": 12, "ny_outer_divertor": 12}, extract=ex))]
+    # the analytic circular family with a sheared safety factor q(r) = a0 + a1 r^2 (second derivatives of psi involve dq/dr)
+    S.append(("rz", gridlab.circular_spec(options={"number_of_processors": 1, "R0": 2.3, "B0": 3.2, "q_coefficients": [1.5, 2.0],
+                                                   "r_inner": 0.3, "r_outer": 0.9, "nx": 5, "ny": 12}, extract=ex)))
+    # a grid on which no two options that could be confused coincide (see gridlab.odd_spec)
+    S.append(("rz", gridlab.odd_spec("lsn", True, extract=ex)))
     if tier == "thorough":
         S += [("rz", gridlab.tokamak_spec("ldn", fpol="linear", options={"orthogonal": False}, extract=ex)),
               ("rz", gridlab.tokamak_spec("usn", fpol="negconst", extract=ex)),
@@ -40,7 +48,7 @@ def gname(g, kind):
     s = g["spec"]
     o = s.get("options", {})
     return "%s/%s%s%s%s" % (kind, s.get("geometry", "circular"), "" if o.get("orthogonal", True) else "-nonorth",
-                            "-capBp" if o.get("cap_Bp_ylow_xpoint") else "", "" if s.get("psi_sign", 1.0) > 0 else "-psineg")
+                            "-capBp" if o.get("cap_Bp_ylow_xpoint") else "", ("" if s.get("psi_sign", 1.0) > 0 else "-psineg") + ("-q%s" % "_".join(map(str, o["q_coefficients"])) if o.get("q_coefficients") else ""))
 
 
 def projections(g):
@@ -98,7 +106,16 @@ def oracle(res, g, kind):
             continue
         err = np.abs(got[m] - w[m]) / scale
         sign_bad = int(((got[m] * w[m] < 0) & (np.abs(w[m]) > 0.05 * scale)).sum())
-        stats[k] = {"max_rel": float(err.max()), "median_rel": float(np.median(err)), "opposite_sign_cells": sign_bad, "cells": int(m.sum())}
+        stats[k] = {"max_rel": float(err.max()), "median_rel": float(np.median(err)), "p90_rel": float(np.percentile(err, 90)), "opposite_sign_cells": sign_bad, "cells": int(m.sum())}
+        # the cells where fpol varies (inside the tabulated profile): terms proportional to fpol' live only there
+        fpp = g["extras"]["fieldpts"].get("fp")
+        if fpp is not None and kind != "rz":
+            mc = m & (np.abs(fpp) > 1e-9 * max(1e-300, float(np.nanmax(np.abs(fpp)))))
+            if mc.any() and np.nanmax(np.abs(w[mc])) > 0:
+                ec = np.abs(got[mc] - w[mc]) / np.nanmax(np.abs(w[mc]))
+                stats[k].update({"fpolprime_cells": int(mc.sum()), "fpolprime_cells_max_rel": float(ec.max()), "fpolprime_cells_median_rel": float(np.median(ec))})
+        if kind == "xyfine":
+            continue
         if kind == "rz":
             if err.max() > 2e-5:
                 ok = False
@@ -107,11 +124,13 @@ def oracle(res, g, kind):
                                   k, err.max(), sign_bad, name), spec)
         else:
             # x-y form: discretisation error of DDX/DDY on a coarse grid; the sign and the bulk must agree
-            if sign_bad > 0.1 * m.sum() or np.median(err) > 0.25:
+            # (on the unchanged tree these two grids give max <= 0.12, median <= 0.008 of the range; a term missing from a component is an
+            # O(1) error that does not shrink with the cells, see the resolution pair of the thorough tier)
+            if sign_bad > 0.1 * m.sum() or np.median(err) > 0.03 or err.max() > 0.2:
                 ok = False
                 res.violation("xy:%s:bpsign%+d" % (k, int(np.sign(np.nanmean(v["Bpxy"])))),
                               "x-y form %s disagrees with curl(b/B) projected on the gradient: %d of %d cells of opposite sign, median error "
-                              "%.3g of range [%s]" % (k, sign_bad, int(m.sum()), float(np.median(err)), name), spec)
+                              "%.3g, largest error %.3g of range [%s]" % (k, sign_bad, int(m.sum()), float(np.median(err)), float(err.max()), name), spec)
     res.extra.setdefault("projection_errors", {})[name] = stats
     return ok
 
@@ -162,6 +181,21 @@ def run(res, tier):
             res.traces += 1
         if kind == "rz" and not res.gen_error:
             correspondence(g, lines, pend)
+    # convergence of the x-y form: halving every cell must reduce the worst disagreement of each component (second order: a factor 4;
+    # a factor 0.6 is demanded); a term that is missing or wrong leaves an error that does not shrink
+    pe = res.extra.get("projection_errors", {})
+    if "xy/lsn" in pe and "xyfine/lsn" in pe:
+        conv = {}
+        for k in OUT:
+            if k in pe["xy/lsn"] and k in pe["xyfine/lsn"]:
+                # the 90th percentile over the cells: the few cells that touch the X-point never converge (the largest error sits there
+                # at every resolution) and are not what the property's "discretisation error of the grid" is about
+                c, f_ = pe["xy/lsn"][k]["p90_rel"], pe["xyfine/lsn"][k]["p90_rel"]
+                conv[k] = {"coarse_p90": c, "fine_p90": f_, "coarse_max": pe["xy/lsn"][k]["max_rel"], "fine_max": pe["xyfine/lsn"][k]["max_rel"]}
+                if f_ > 0.6 * c + 1e-4:
+                    res.violation("xy-no-convergence:%s" % k, "x-y form %s: the 90th percentile of the disagreement with the projection of curl(b/B) is %.3g of the range "
+                                  "on the grid and %.3g with every cell halved: it does not shrink like a discretisation error" % (k, c, f_), {"specs": [s2 for kd, s2 in sp if kd in ("xy", "xyfine")][:3]})
+        res.extra["xy_convergence"] = conv
     if res.gen_error:
         res.broken("translator could not regenerate the model (fail-closed)", res.gen_error)
         return
